@@ -82,11 +82,15 @@ theorem pyMul_only (F : Libm) {a b : PyVal} (ha : isNumber a = true) (hb : isNum
 
 theorem fDiv_only (F : Libm) (x y : PyFloat) : Only sZeroDiv (fDiv F x y) := by
   unfold fDiv
-  split <;> first | exact Only.ok _ | exact Only.err rfl
+  split
+  · exact Only.err rfl
+  · split <;> exact Only.ok _
 
 theorem fMod_only (F : Libm) (x y : PyFloat) : Only sZeroDiv (fMod F x y) := by
   unfold fMod
-  split <;> first | exact Only.ok _ | exact Only.err rfl
+  split
+  · exact Only.err rfl
+  · split <;> exact Only.ok _
 
 theorem sOverflow_arith : ∀ e, sOverflow e = true → sArith e = true := by
   intro e; cases e <;> simp [sOverflow, sArith, HostExc.isArithmetic]
